@@ -114,11 +114,15 @@ Proof.
 Qed.
 
 (* ---------- the executable specification holds of the model on every input ---------- *)
+(* Canonicalize of the registered strategies is the identity: the stored object is the prepared one *)
+Lemma then_canonicalize_id out : then_canonicalize out = out.
+Proof. destruct out; reflexivity. Qed.
+
 Lemma model_meets_spec k op old new :
   0 <= gen old < max_int64 ->
   clauses op (served_sub (cfg k)) old (model_out k op old new) = [true; true; true; true].
 Proof.
-  intros Hg. destruct op; unfold model_out.
+  intros Hg. destruct op; unfold model_out, step_create, step_update_main, step_update_status; rewrite then_canonicalize_id.
   - destruct (create_shape k new) as (r & Hr & Hg1 & _ & _ & _ & Hst). rewrite Hr. simpl.
     rewrite Hg1. simpl. destruct (served_sub (cfg k)) eqn:Hs; [rewrite (Hst eq_refl)|]; reflexivity.
   - destruct (main_update_shape (cfg k) old new Hg) as (r & Hr & Hs & Ha & _ & _ & Hst & Hgen).
@@ -150,3 +154,38 @@ Proof.
   eexists. split; [vm_compute; split; [discriminate|reflexivity]|].
   split; [vm_compute; reflexivity|]. split; [split; reflexivity|]. reflexivity.
 Qed.
+
+
+(* ---------- the composed step: stored object before vs stored object after ---------- *)
+Definition stored_unchanged (old r : obj) : Prop :=
+  psem (spec r) = psem (spec old) /\ sem (annotations r) = sem (annotations old).
+
+Lemma stored_generation_iff_stored_change k old new :
+  0 <= gen old < max_int64 ->
+  exists r, step_update_main (cfg k) old new = Stored r
+    /\ (gen r = gen old + 1 <-> ~ stored_unchanged old r)
+    /\ (stored_unchanged old r -> gen r = gen old)
+    /\ (gen r = gen old \/ gen r = gen old + 1)
+    /\ (served_sub (cfg k) = true -> status r = status old).
+Proof.
+  intros Hg. unfold step_update_main. rewrite then_canonicalize_id.
+  destruct (generation_iff k old new Hg) as (r & Hr & Hs & Ha & Hiff & Hsame & Hor).
+  exists r. split; [exact Hr|].
+  assert (Heq : stored_unchanged old r <-> unchanged old new).
+  { unfold stored_unchanged, unchanged. rewrite Hs, Ha. tauto. }
+  split; [rewrite Heq; exact Hiff|]. split; [intros H; apply Hsame, Heq, H|]. split; [exact Hor|].
+  intros Hsub. eapply main_update_keeps_status; eassumption.
+Qed.
+
+Lemma stored_status_update k old new :
+  served_sub (cfg k) = true -> 0 <= gen old ->
+  exists r, step_update_status (cfg k) old new = Stored r
+    /\ spec r = spec old /\ labels r = labels old /\ gen r = gen old
+    /\ status r = status new /\ annotations r = annotations new /\ meta_rest r = meta_rest new.
+Proof. intros Hs Hg. unfold step_update_status. rewrite then_canonicalize_id. apply status_update_keeps; assumption. Qed.
+
+Lemma stored_create k new :
+  exists r, step_create (cfg k) new = Stored r
+    /\ gen r = 1 /\ spec r = spec new /\ labels r = labels new /\ annotations r = annotations new
+    /\ (served_sub (cfg k) = true -> status r = zero_payload).
+Proof. unfold step_create. rewrite then_canonicalize_id. apply create_shape. Qed.
